@@ -2,7 +2,9 @@
    Only statements; every proof is `exact <lemma>` from proofs/.  Cost laws: generated real functions (gen/Scalar.v).
    Area: rational model (model/Area.v) with the log-mean temperature difference supplied as data / as a Section variable. *)
 From Coq Require Import Reals QArith List.
-From OP Require Import gen.Consts gen.HxDispatch gen.Scalar model.Base model.Area proofs.Cost proofs.Area.
+From OP Require Import gen.Consts gen.HxDispatch gen.Scalar model.Base model.Area model.TDF proofs.Cost proofs.Area
+  proofs.TDFGrid proofs.TDFBlock proofs.TDFInterp proofs.TDFMain.
+From Coq Require Import Sorted.
 
 (* capital cost = N (a + b (A/N)^c) *)
 Theorem C15_capital_cost_def : forall A N a b c : R, compute_capital_cost_R A N a b c = (N * (a + b * Rpower (A / N) c))%R.
@@ -69,8 +71,133 @@ Theorem C15_spec_area_bounds : forall lmtd : Q -> Q -> Q,
 Proof. exact spec_area_bounds. Qed.
 Print Assumptions C15_spec_area_bounds.
 
+(* ====================================================================================================================
+   get_temperature_driving_forces (model/TDF.v: tdf = 6-decimal rounding + the three guards + tdf_core; tdf_core = normalise,
+   np.union1d grid, interp_with_plateaus at interval starts (side right) / ends (side left), discontinuity block).
+   ==================================================================================================================== *)
+
+(* the three ValueError guards, in the order of the source; otherwise the result is tdf_core of the rounded arrays *)
+Theorem C15_tdf_guards : forall tolv mindt Th Hh Tc Hc,
+  let rT := map round_dp Th in let rH := map round_dp Hh in let rt := map round_dp Tc in let rh := map round_dp Hc in
+  ((length Th <> length Hh \/ length Tc <> length Hc) -> tdf tolv mindt Th Hh Tc Hc = TErr TLen)
+  /\ (length Th = length Hh -> length Tc = length Hc -> (Th = [] \/ Tc = []) -> tdf tolv mindt Th Hh Tc Hc = TErr TEmpty)
+  /\ (length Th = length Hh -> length Tc = length Hc -> Th <> [] -> Tc <> [] ->
+      (tolv < Qabs ((lmax rH - lmin rH) - (lmax rh - lmin rh)) -> tdf tolv mindt Th Hh Tc Hc = TErr TUnbalanced)
+      /\ (Qabs ((lmax rH - lmin rH) - (lmax rh - lmin rh)) <= tolv -> tdf tolv mindt Th Hh Tc Hc = TOk (tdf_core tolv mindt rT rH rt rh))).
+Proof. exact tdf_guards. Qed.
+Print Assumptions C15_tdf_guards.
+
+(* the enthalpy grid, for ANY pair of curves (no well-formedness needed): h_vals is strictly ascending; every break point of
+   both normalised curves is on it and it contains nothing else; every interval has positive width; the widths sum to
+   last - first (the intervals PARTITION the range: nothing counted twice or lost); no break point of either curve lies
+   strictly inside an interval, i.e. both piecewise-linear composites are affine on every interval *)
+Theorem C15_tdf_grid : forall tolv mindt Th Hh Tc Hc,
+  let o := tdf_core tolv mindt Th Hh Tc Hc in
+  let bps := fst (normalise tolv Hh Th) ++ fst (normalise tolv Hc Tc) in
+  StronglySorted Qlt (o_h o)
+  /\ (forall x, In x bps -> exists y, In y (o_h o) /\ y == x)
+  /\ (forall y, In y (o_h o) -> In y bps)
+  /\ Forall (fun d => 0 < d) (o_dh o)
+  /\ (bps <> [] -> sumQ (o_dh o) == last (o_h o) 0 - hd 0 (o_h o))
+  /\ (forall a b, In (a, b) (combine (starts (o_h o)) (ends (o_h o))) -> a < b /\ forall x, In x bps -> ~ (a < x /\ x < b)).
+Proof. exact tdf_grid. Qed.
+Print Assumptions C15_tdf_grid.
+
+(* when both normalised curves run from 0 to a common span S: the grid starts at 0, ends at S, and the widths sum to S *)
+Theorem C15_tdf_grid_span : forall tolv mindt Th Hh Tc Hc S,
+  let o := tdf_core tolv mindt Th Hh Tc Hc in
+  let bps := fst (normalise tolv Hh Th) ++ fst (normalise tolv Hc Tc) in
+  In 0 bps -> In S bps -> (forall x, In x bps -> 0 <= x <= S) -> hd 0 (o_h o) == 0 /\ last (o_h o) 0 == S /\ sumQ (o_dh o) == S.
+Proof. exact tdf_grid_ends. Qed.
+Print Assumptions C15_tdf_grid_span.
+
+(* one-sided limits: at a grid value g that is a break point of the hot curve itself, with everything before it <= g and g the
+   LAST member of its plateau (the next value exceeds g by more than length * tol), t_h1 at an interval STARTING at g is exactly
+   the temperature at the top of the vertical jump; with g the FIRST member of its plateau, t_h2 at an interval ENDING at g is
+   exactly the temperature at the bottom.  So the jump at g belongs to neither neighbouring interval.  Same for the cold curve. *)
+Theorem C15_tdf_hot_right_limit : forall tolv mindt Th Hh Tc Hc l1 g l2 f1 fg f2 v,
+  normalise tolv Hh Th = (l1 ++ g :: l2, f1 ++ fg :: f2) ->
+  0 <= tolv -> length f1 = length l1 -> length f2 = length l2 -> Forall (fun y => y <= g) l1 ->
+  (l2 = [] \/ g + tolv * inject_Z (Z.of_nat (length (l1 ++ g :: l2))) < hd 0 l2) ->
+  let o := tdf_core tolv mindt Th Hh Tc Hc in
+  In (g, v) (combine (starts (o_h o)) (o_th1 o)) -> v = fg.
+Proof. exact tdf_hot_right_limit. Qed.
+Print Assumptions C15_tdf_hot_right_limit.
+Theorem C15_tdf_hot_left_limit : forall tolv mindt Th Hh Tc Hc l1 g l2 f1 fg f2 v,
+  normalise tolv Hh Th = (l1 ++ g :: l2, f1 ++ fg :: f2) ->
+  0 < tolv -> length f1 = length l1 -> length f2 = length l2 ->
+  Forall (fun y => y + tolv * inject_Z (Z.of_nat (length (l1 ++ g :: l2))) < g) l1 -> (l2 = [] \/ g <= hd 0 l2) ->
+  let o := tdf_core tolv mindt Th Hh Tc Hc in
+  In (g, v) (combine (ends (o_h o)) (o_th2 o)) -> v = fg.
+Proof. exact tdf_hot_left_limit. Qed.
+Print Assumptions C15_tdf_hot_left_limit.
+Theorem C15_tdf_cold_right_limit : forall tolv mindt Th Hh Tc Hc l1 g l2 f1 fg f2 v,
+  normalise tolv Hc Tc = (l1 ++ g :: l2, f1 ++ fg :: f2) ->
+  0 <= tolv -> length f1 = length l1 -> length f2 = length l2 -> Forall (fun y => y <= g) l1 ->
+  (l2 = [] \/ g + tolv * inject_Z (Z.of_nat (length (l1 ++ g :: l2))) < hd 0 l2) ->
+  let o := tdf_core tolv mindt Th Hh Tc Hc in
+  In (g, v) (combine (starts (o_h o)) (o_tc1 o)) -> v = fg.
+Proof. exact tdf_cold_right_limit. Qed.
+Print Assumptions C15_tdf_cold_right_limit.
+Theorem C15_tdf_cold_left_limit : forall tolv mindt Th Hh Tc Hc l1 g l2 f1 fg f2 v,
+  normalise tolv Hc Tc = (l1 ++ g :: l2, f1 ++ fg :: f2) ->
+  0 < tolv -> length f1 = length l1 -> length f2 = length l2 ->
+  Forall (fun y => y + tolv * inject_Z (Z.of_nat (length (l1 ++ g :: l2))) < g) l1 -> (l2 = [] \/ g <= hd 0 l2) ->
+  let o := tdf_core tolv mindt Th Hh Tc Hc in
+  In (g, v) (combine (ends (o_h o)) (o_tc2 o)) -> v = fg.
+Proof. exact tdf_cold_left_limit. Qed.
+Print Assumptions C15_tdf_cold_left_limit.
+
+(* a curve without plateaus (no two consecutive enthalpies within tol) is interpolated as it stands *)
+Theorem C15_tdf_no_plateau_identity : forall tolv s h, no_block tolv h = true -> Forall2 Qeq (make_monotonic tolv s h) h.
+Proof. exact make_monotonic_id. Qed.
+Print Assumptions C15_tdf_no_plateau_identity.
+
+(* REFUTED: "t_h1 / t_h2 are the piecewise-linear values of the composite at EVERY grid value".  At a break point of the OTHER
+   curve lying in the segment before a plateau the value is interpolated towards the plateau member moved by tol/2:
+   hot (0,100) (10,110) (10,150), cold break point at 5: 105.00000025 instead of 105 (same on the implementation; < 1e-6) *)
+Theorem C15_tdf_interp_exact_everywhere_refuted :
+  ~ (forall h t x, np_interp (make_monotonic tol SRight h) t x == np_interp h t x).
+Proof. exact interp_exact_everywhere_refuted. Qed.
+Print Assumptions C15_tdf_interp_exact_everywhere_refuted.
+
+(* end differences: delta_T1 = (t_h1 - t_c1) - min_dT always; delta_T2 = low - min_dT where `low` is obtained from the raw end
+   differences t_h2 - t_c2 by the relation PM (proofs/TDFBlock.v): going from the last interval backwards, an interval whose
+   END value is within tol of a discontinuity (a zero-width segment of either curve) takes min(own, already-processed value of
+   the NEXT interval); the last interval and all others keep their own.  Hence the block can only LOWER a difference, and
+   without discontinuities delta_T2 = raw - min_dT. *)
+Theorem C15_tdf_deltas : forall tolv mindt Th Hh Tc Hc,
+  let o := tdf_core tolv mindt Th Hh Tc Hc in
+  let ds := disc_values tolv (fst (normalise tolv Hh Th)) ++ disc_values tolv (fst (normalise tolv Hc Tc)) in
+  o_raw2 o = vsub (o_th2 o) (o_tc2 o)
+  /\ o_d1 o = map (fun x => rsub x mindt) (vsub (o_th1 o) (o_tc1 o))
+  /\ (exists low, PM tolv ds (ends (o_h o)) (o_raw2 o) low /\ Forall2 Qle low (o_raw2 o) /\ o_d2 o = map (fun x => rsub x mindt) low)
+  /\ (ds = [] -> o_d2 o = map (fun x => rsub x mindt) (o_raw2 o)).
+Proof. exact tdf_deltas. Qed.
+Print Assumptions C15_tdf_deltas.
+
+(* REFUTED: "delta_T2 is the end difference at the left limit".  cold (0,20) (5,60) (5,60) (10,90) has a REPEATED POINT at 5 (no
+   temperature jump on either curve there); the interval [0,5] ends with 105 - 60 = 45 but gets 20, the end difference of the
+   next interval taken at enthalpy 10 (finding D36: this is what makes the area target deviate from the interval sum) *)
+Theorem C15_tdf_delta_T2_is_end_difference_refuted :
+  ~ (forall Th Hh Tc Hc o, tdf tol 0 Th Hh Tc Hc = TOk o -> o_d2 o = o_raw2 o).
+Proof. exact delta_T2_is_end_difference_refuted. Qed.
+Print Assumptions C15_tdf_delta_T2_is_end_difference_refuted.
+
+(* the block can only OVER-estimate the area: for any LMTD that is positive and non-decreasing in its second argument,
+   lowering end differences (pointwise, staying positive) does not lower  sum_i q_i R_i / lmtd(d1_i, d2_i) *)
+Theorem C15_tdf_block_overestimates_area : forall lmtd : Q -> Q -> Q,
+  (forall a b, 0 < a -> 0 < b -> 0 < lmtd a b) -> (forall a b b', 0 < a -> 0 < b -> b <= b' -> lmtd a b <= lmtd a b') ->
+  forall dh R d1 low raw,
+  Forall (fun q => 0 <= q) dh -> Forall (fun r => 0 <= r) R -> Forall (fun a => 0 < a) d1 -> Forall (fun b => 0 < b) low ->
+  Forall2 Qle low raw -> area_with lmtd dh R d1 raw <= area_with lmtd dh R d1 low.
+Proof. exact lowering_raises_area. Qed.
+Print Assumptions C15_tdf_block_overestimates_area.
+
 (* OPEN: area_matches_spec -- for every problem with positive contributions and feasible utilities
      get_area_targets(...) = spec_area (spec_intervals hot cold) (LMTDs)
-   is not a theorem: get_temperature_driving_forces (plateau handling by make_monotonic, rounding to 6 dp, the discontinuity
-   block) is not modelled; the equality is evaluated by judge_area on every run against the implementation's own interval
-   data, and it is FALSE where the discontinuity block fires (finding D36, verdict [3;3]). *)
+   is not a theorem (the chain  balanced curves of the problem table -> tdf -> resistance mapping -> sum  is modelled stage by
+   stage and compared on every run, the composition with the problem-table stage is not proved); it is evaluated by
+   judge_e2e_tdf on every run, and it is FALSE where the discontinuity block fires (finding D36, verdict [3;3]).
+   OPEN: the one-sided-limit theorems are stated for a decomposition of the normalised curve around the break point; a
+   closed-form bound for the deviation at foreign break points next to a plateau (observed < 1e-6 * slope) is not proved. *)
